@@ -408,8 +408,8 @@ func runFanout(a fanArgs) fanReal {
 					chCount--
 				} else { // rendezvous with a blocked sender: it parks at W.exit right away
 					w := "W" + strings.TrimPrefix(p.key, "s")
-					if q := sch.waitPark(w, fanStepTimeout); q != nil && q.step == "W.exit" {
-						if v, err := strconv.Atoi(w[1:]); err == nil && v < n && wpc[v] == "inSend" {
+					if v, err := strconv.Atoi(w[1:]); err == nil && v >= 0 && v < n && wpc[v] == "inSend" {
+						if q := sch.waitPark(w, fanStepTimeout); q != nil && q.step == "W.exit" {
 							wpc[v] = "exit"
 						}
 					}
